@@ -35,6 +35,15 @@ pub fn label_input(c: &FmtCase, canon: &tokcanon::Canon, obs: &mut Obs) {
 impl Property for C05 {
     type Case = FmtCase;
     type Local = ();
+    fn thorough_family(&self, _c: &Self::Case, f: &Fail) -> Option<String> {
+        // output defects of the formatter (clauses A-C): ~20 root causes, long tail of shapes; D-clause, panics and the
+        // changed-flag are never mapped
+        if f.sig.starts_with("A:") || f.sig.starts_with("C:") || f.sig.starts_with("tokens:") || f.sig.starts_with("inner-comment") {
+            Some("family:formatter-output-defect-unclassified-shape".into())
+        } else {
+            None
+        }
+    }
     fn id(&self) -> &'static str {
         "C05"
     }
